@@ -397,6 +397,42 @@ func runKeys(w *World, p map[string]int, prop string) {
 				break
 			}
 			src := longest(kw, insts)
+			if t.Bool(20) && len(kws) < 5 {
+				// the mnemonic path takes any private passphrase of legal length,
+				// also one the create path would refuse (blanks, punctuation,
+				// non-ASCII): that is another wallet (the passphrase enters the
+				// seed), and its own passphrase must open it like any other
+				alt := []string{"abc def!9", "p\u00e4ssw\u00f6rd1", "tab\there12", "semi;colon,1", "quote'\"x12", "dash-dot.9"}[t.Int(6)]
+				hd, herr := NewHDWallet(src.Mnemonic, alt, w.Params.HDCoinType, "")
+				if herr != nil {
+					break
+				}
+				altSrc := &WalletState{ID: hd.ID, Mnemonic: src.Mnemonic, Pass: alt, HD: hd}
+				if other.Wallets[hd.ID] != nil {
+					break
+				}
+				nw, err := other.ImportMnemonicIdx(altSrc, 1, 0, true)
+				if err != nil {
+					w.Stat("probe.unusual_passphrase_import_refused")
+					break
+				}
+				if nw.ID != hd.ID {
+					if hd2, e2 := NewHDWallet(src.Mnemonic, alt, w.Params.HDCoinType, nw.ID); e2 == nil && hd2.ID == nw.ID {
+						nw.HD = hd2
+					} else {
+						w.Violate("C04.id-mismatch", "mnemonic restored under passphrase %q has id %s, independent derivation %s", alt, nw.ID, hd.ID)
+						break
+					}
+				}
+				w.S.Quiesce(20000)
+				other.SyncIssued(nw)
+				nkw := &keyWallet{ws: nw}
+				nkw.secrets, nkw.names = secretsOf(nw)
+				kws = append(kws, nkw)
+				w.Stat("probe.restore_under_unusual_passphrase")
+				verifyKeys(other, nw)
+				break
+			}
 			hint := uint32(len(src.Issued))
 			intHint := uint32(0)
 			if t.Bool(45) {
